@@ -153,7 +153,7 @@ def reset_module_state():
     except AttributeError:
         missing.append("event.GLOBAL_HANDLER")
     try:
-        fbase.EXECUTOR._shutdown._lock = core.CLock()
+        fbase.EXECUTOR._shutdown._lock = core.CRLock()
         fbase.EXECUTOR._shutdown.is_shutdown = False
     except AttributeError:
         missing.append("futures.base.EXECUTOR._shutdown._lock")
